@@ -9,8 +9,7 @@ regenerated type descriptors. The tie to the Go code is translator X1/X2 + the c
 
 Scope of the theorems: every descriptor `T` with `wfTop env T` (decided per regenerated type: `wf_<T>` in
 TongoGen/TlbTypes.lean), every value in `inDom`. NOT covered (listed in the evidence): types containing a custom
-codec without a model (`opaque`), dictionaries other than the empty one (`dictE`, owned by C05), the one
-hand-written codec whose CodecOK lemma is not proved (`Prim.proved = false`: wallet.W5Actions) and the types
+codec without a model (`opaque`), dictionaries other than the empty one (`dictE`, owned by C05) and the types
 pinned in harness/tlbx/nonwf.go. -/
 namespace Tongo.Tlb.C03
 open Tongo Tongo.Tlb Tongo.Bits
@@ -189,7 +188,7 @@ theorem grams_orig_defect :
 
 /-- **signedcoins_roundtrip**, **msgaddress_roundtrip** (four constructors, anycast depth 1..30, extern length
 0..511), **snake_roundtrip** (any length, chaining over references) and the other hand-written codecs: the uniform
-statement `PrimOK p` for every codec marked proved (18 of the 19 modelled ones; not wallet.W5Actions). -/
+statement `PrimOK p` for every inline codec (18); wallet.W5Actions, which occupies whole cells, is `w5_refOK`. -/
 theorem codec_ok (p : Prim) (hp : p.proved = true) : PrimOK p := primOK_of_proved p hp
 
 theorem signedcoins_roundtrip : PrimOK .signedCoins := primOK_signedCoins
